@@ -535,7 +535,9 @@ def bounded_decisions(s, fill, rnd):
                     if len(chosen) == len(B):
                         break
                 vals = {NAMES[k]: rnd.randint(20, 600, size=2) for k in chosen}
-                ti = pandas.DataFrame({n: v.astype("int64") for n, v in vals.items()})
+                # column typing as pandas infers it per column: all whole-number columns (even trials), or only SOME of them, anywhere among the float ones (odd trials)
+                as_int = set(vals) if trial % 2 == 0 else {n for n in vals if rnd.rand() < 0.5} or {list(vals)[0]}
+                ti = pandas.DataFrame({n: (v.astype("int64") if n in as_int else v.astype(float)) for n, v in vals.items()})
                 tf = pandas.DataFrame({n: v.astype(float) for n, v in vals.items()})
                 evals += 1
                 distinct.add((system, "int", trial))
@@ -548,7 +550,7 @@ def bounded_decisions(s, fill, rnd):
                     not numpy.allclose(oi[c].to_numpy(dtype=float), of[c].to_numpy(dtype=float), rtol=0, atol=1e-8) for c in of.columns if c in oi.columns)
                 moved = [c for c in vals if c in oi.columns and not numpy.allclose(oi[c].to_numpy(dtype=float), vals[c].astype(float), rtol=0, atol=1e-8)]
                 if bad or moved:
-                    fail("int-columns:%s:%d" % (system, trial), {"system": system, "table": ti.to_dict("list")},
+                    fail("int-columns:%s:%d" % (system, trial), {"system": system, "table": ti.to_dict("list"), "integer_typed_columns": sorted(as_int)},
                          {"moved": moved, "int": {str(c): oi[c].tolist() for c in oi.columns}}, "integer and float columns give the same table; supplied values unchanged")
                     break
     # integer-typed columns, order, a zero non-modulus column
